@@ -16,8 +16,8 @@ func init() {
 		Pkgs:           []string{"network"},
 		Run:            runC33,
 		MinObligations: 10,
-		Technique:      "static analysis: guard dominance (path alternatives) of the application callback in the packet dispatcher, definition check of the classification flags, atomicity (single write-lock hold) of the duplicate filter's test-and-insert",
-		LevelText:      "Decides on all paths: the application callback in PeerToPeer.onPacket runs only if (a) the packet is not a one-hop packet from someone other than its source peer, (b) it is not an originator broadcast from a peer whose *resolved* role lacks the validator (root) flag, (c) the source is not this node, and (d) it is one-hop or PacketPool.Put accepted it; the flags are defined from ttl/dest/src exactly as the property states; PacketPool.Put performs the membership test and the insert inside one exclusive-lock hold, returns false on a hit without inserting, and inserts under the packet's checksum on a miss — so concurrent relays of one flooded packet yield exactly one `true`.",
+		Technique:      "static analysis: path-sensitive analysis over a finite boolean domain — the dispatcher's tests (ttl == 0, dest == peer/any, sender is source, source is self, resolved root role, duplicate filter accepted) are classified into atoms and reachability of the application callback is decided on the CFG for every truth assignment; atomicity (single write-lock hold) of the duplicate filter's test-and-insert; ring-scan shape; role bookkeeping rules",
+		LevelText:      "Decides on all paths: the application callback in PeerToPeer.onPacket runs only if (a) the packet is not a one-hop packet from someone other than its source peer, (b) it is not an originator broadcast from a peer whose *resolved* role lacks the validator (root) flag, (c) the source is not this node, and (d) it is one-hop or PacketPool.Put accepted it; one-hop means ttl ≠ 0 or dest == peer and originator broadcast means dest == any with ttl == 0, stated directly over the packet fields (so the result does not depend on how the code names, spells or nests its tests); PacketPool.Put performs the membership test and the insert inside one exclusive-lock hold, returns false on a hit without inserting, and inserts under the packet's checksum on a miss — so concurrent relays of one flooded packet yield exactly one `true`.",
 		LevelNote:      "Collision resistance of the 64-bit packet checksum and eviction of old buckets bound the `at most once` guarantee in time; not decided.",
 		Explanation:    "C33 rules: dispatch-guards (K1 with alternatives), flag-definitions (K5), atomic-put (K6 + K2), role-source (K5: resolved role, not the claimed one).",
 		Mutants: []Mutant{
